@@ -21,7 +21,7 @@ def _run(prop, seed, cases, jobs, hashseed):
     e["PYTHONHASHSEED"] = str(hashseed)
     e.pop("VERIF_SEED", None)
     cmd = [sys.executable, "-m", "vecsim.cli", prop, "--seed", str(seed), "--cases", str(cases), "--jobs", str(jobs),
-           "--digest", "--no-evidence", "--no-shrink", "--budget", "900"]
+           "--digest", "--no-evidence", "--no-shrink", "--budget", "900", "--sweeps", "10"]
     p = subprocess.run(cmd, cwd=env.VERIF, env=e, capture_output=True, text=True, timeout=1500)
     m = re.search(r"EVENTLOG-DIGEST (\w+) cases=(\d+)", p.stdout)
     if not m:
